@@ -158,7 +158,8 @@ let check_C15 = check_with true (fun sc log -> oracle_turns sc log && (sc.sc_aut
 (* C03: the variants of one byte stream (ids <n>.v<k>) must produce the identical log *)
 let seg_first : (string, string) Hashtbl.t = Hashtbl.create 1024
 let check_C03 (fields : sexp list) : verdict * string option =
-  let (v, cross) = check_with false (fun _ _ -> true) fields in
+  (* with authentication configured: the validator is asked about exactly what the password message holds *)
+  let (v, cross) = check_with false (fun sc log -> sc.sc_auth = None || oracle_C01 sc log) fields in
   match v with
   | OracleFail _ -> (v, cross)
   | _ ->
